@@ -42,7 +42,58 @@ def setup():
     import io
     with contextlib.redirect_stdout(io.StringIO()):
         import skepticoin.blockstore  # noqa: F401  (creates ./chain.db in the scratch directory, prints a line)
+    _snapshot_module_state()
     return d
+
+
+_PRISTINE = {}
+_CONSENSUS_MODULES = ("skepticoin.consensus", "skepticoin.pow", "skepticoin.balances", "skepticoin.merkletree", "skepticoin.datatypes",
+                      "skepticoin.serialization", "skepticoin.hash", "skepticoin.signing", "skepticoin.coinstate")
+
+
+def _snapshot_module_state():
+    """Module-level data of the consensus modules as it is right after import (before anything was computed): whatever a module keeps
+    between calls -- the tree keeps nothing, a change might add a memo or a cache -- can be put back to this state between two runs of
+    an exploration (reset_module_state), so that every run starts cold."""
+    import copy
+    import importlib
+    import types
+    for mn in _CONSENSUS_MODULES:
+        try:
+            m = importlib.import_module(mn)
+        except Exception:
+            continue
+        snap = {}
+        for k, v in list(vars(m).items()):
+            if k.startswith("__") or callable(v) or isinstance(v, (types.ModuleType, type)):
+                continue
+            try:
+                snap[k] = copy.deepcopy(v)
+            except Exception:
+                pass
+        _PRISTINE[mn] = snap
+
+
+def reset_module_state():
+    import copy
+    import importlib
+    import types
+    for mn, snap in _PRISTINE.items():
+        m = importlib.import_module(mn)
+        cur = vars(m)
+        for k, v in snap.items():
+            if k == "KNOWN_HASHES":
+                continue                     # replaced by apply_cfg
+            if k.isupper() and isinstance(v, (int, bytes, str, tuple, float, bool, type(None))):
+                continue                     # a constant (possibly set to a model-sized value by apply_cfg)
+            try:
+                cur[k] = copy.deepcopy(v)
+            except Exception:
+                pass
+        # names that did not exist at import time hold state created later: drop them so that the code re-creates them
+        for k in [k for k, v in list(cur.items()) if k not in snap and not k.startswith("__") and not callable(v)
+                  and not isinstance(v, (types.ModuleType, type))]:
+            del cur[k]
 
 
 def scratch():
